@@ -18,7 +18,17 @@ Require Import PV.Binder.Kind PV.Binder.Sig PV.Binder.Bind PV.Binder.PyBind.
 Require PV.Proofs.BinderStar.
 Require Import PV.Proofs.CallMain PV.Proofs.CallAtoms PV.Proofs.SolveAtoms PV.Proofs.CallCore.
 Require PV.Core.Obj PV.Core.Val PV.Core.Cls PV.Core.Member PV.Core.CanAssignK PV.Proofs.C03Main.
-Require Import PV.Gen.Solve PV.Gen.SolveAtoms PV.Gen.CallObjs.
+Require Import PV.Gen.Solve PV.Gen.SolveAtoms PV.Gen.CallObjs PV.Gen.CheckCall.
+
+(* generated obligation: the control structure of Signature.check_call_with_bound_args and
+   _check_param_type_compatibility that Call/Model.v mirrors, extracted from the AST on every run
+   (typevar pass guarded, first, over typevars_of_params minus the return key, unsubstituted, a
+   rejected argument returns the default at once; bounds unified then resolved, errors return
+   the default; argument pass over every bound argument, substituted, no early return; the
+   default is exempt by identity; unannotated parameters accept) *)
+Theorem C06_check_call_structure : check_call_structure_ok = true.
+Proof. reflexivity. Qed.
+Print Assumptions C06_check_call_structure.
 
 (* C05 composed: "a call that binds" — for every valid signature and every concrete
    call, the model reports a binding failure exactly when CPython cannot bind the call *)
@@ -39,21 +49,21 @@ Print Assumptions C06_bound_star_call_has_binding_expansion.
 (* signatures without type variables: one incompatible_argument per parameter with a
    rejected argument value, and nothing else — all parameter kinds, star arguments included *)
 Theorem C06_nongeneric_diagnostics_are_the_rejected_parameters :
-  forall (V : Type) (O : ops V) limit s c b,
+  forall (V : Type) (O : ops V) limit none_v s c b,
   no_tv s = true -> cbind s c = Some b ->
-  forall d, In d (fst (check_call O limit s c)) <->
+  forall d, In d (fst (check_call O limit none_v s c)) <->
     exists p vs x, In (p, BVals vs) b /\ d = IncompatibleArgument (pname (cp p)) /\
-      In x vs /\ fits1 O (fun _ => any_generic O) (ann p) x = false.
+      In x vs /\ fits1 O none_v (fun _ => any_generic O) (ann p) x = false.
 Proof. exact @nongeneric_diagnostics. Qed.
 Print Assumptions C06_nongeneric_diagnostics_are_the_rejected_parameters.
 
 (* diagnosed(call) <=> exists arg: not member(arg, declared(param)) *)
 Theorem C06_diagnosed_iff_some_argument_not_member :
-  forall (V : Type) (O : ops V) limit (Obj : Type) (val : Obj -> V) (member : Obj -> V -> bool),
+  forall (V : Type) (O : ops V) limit none_v (Obj : Type) (val : Obj -> V) (member : Obj -> V -> bool),
   (forall t o, acc O t (val o) = member o t) ->
-  forall s c b, no_tv s = true -> cbind s c = Some b -> literal_args val b ->
-  (diagnosed O limit s c = true <->
-   exists p vs t o, In (p, BVals vs) b /\ ann p = AnnTy t /\ In (AV (val o)) vs /\ member o t = false).
+  forall s c b, flat_sig s = true -> cbind s c = Some b -> literal_args val b ->
+  (diagnosed O limit none_v s c = true <->
+   exists p vs t o, In (p, BVals vs) b /\ ann p = AnnE (TTy t) /\ In (AV (val o)) vs /\ member o t = false).
 Proof. exact @nongeneric_diagnosed_iff_nonmember. Qed.
 Print Assumptions C06_diagnosed_iff_some_argument_not_member.
 
@@ -62,10 +72,10 @@ Print Assumptions C06_diagnosed_iff_some_argument_not_member.
    parameter type, and the inferred type is the substituted return annotation —
    otherwise an error is reported *)
 Theorem C06_accepted_call_arguments_fit_substituted_types :
-  forall (V : Type) (O : ops V) limit s c,
-  diagnosed O limit s c = false ->
-  exists b sol, cbind s c = Some b /\ snd (check_call O limit s c) = inferred O sol (cret s) /\
-    forall p vs x, In (p, BVals vs) b -> In x vs -> fits1 O sol (ann p) x = true.
+  forall (V : Type) (O : ops V) limit none_v s c,
+  diagnosed O limit none_v s c = false ->
+  exists b sol, cbind s c = Some b /\ snd (check_call O limit none_v s c) = inferred O sol (cret s) /\
+    forall p vs x, In (p, BVals vs) b -> In x vs -> fits1 O none_v sol (ann p) x = true.
 Proof. exact @accepted_call_arguments_fit. Qed.
 Print Assumptions C06_accepted_call_arguments_fit_substituted_types.
 
@@ -74,8 +84,8 @@ Print Assumptions C06_accepted_call_arguments_fit_substituted_types.
    bound of T_k — accepts the value chosen for T_k, and its result is accepted by the value
    chosen for its result variable *)
 Theorem C06_accepted_call_respects_callback_bounds :
-  forall (V : Type) (O : ops V) limit s c,
-  diagnosed O limit s c = false ->
+  forall (V : Type) (O : ops V) limit none_v s c,
+  diagnosed O limit none_v s c = false ->
   exists b sol, cbind s c = Some b /\
     forall p vs k r pv qv, In (p, BVals vs) b -> ann p = AnnFun k r -> In (AFun pv qv) vs ->
       acc O pv (sol k) = true /\ (forall j, r = RVar j -> acc O (sol j) qv = true).
@@ -86,39 +96,46 @@ Print Assumptions C06_accepted_call_respects_callback_bounds.
    succeed, an argument passed positionally or by keyword for a parameter annotated T_k is
    accepted by the value chosen for T_k — the second pass never reports it *)
 Theorem C06_typevar_argument_accepted_by_solution :
-  forall (V : Type) (O : ops V) limit, acc_laws O ->
+  forall (V : Type) (O : ops V) limit none_v, acc_laws O ->
   forall s (b : list (@cparam V * @barg V)) l p k v,
-  pass1 O limit s b = inr l -> resolve_ok O limit l = true ->
-  In (p, BVals [AV v]) b -> ann p = AnnVar k ->
+  pass1 O limit none_v s b = inr l -> resolve_ok O limit l = true ->
+  In (p, BVals [AV v]) b -> ann p = AnnE (TVarE k) ->
   acc O (sol_of O limit l k) v = true.
 Proof. exact @typevar_argument_accepted_by_solution. Qed.
 Print Assumptions C06_typevar_argument_accepted_by_solution.
 
-(* ... and the same through the generic forms: the element type of a list[T_k] argument, the
-   key / value types of a dict[T_k, T_j] argument and the result type of a Callable[.., T_j]
-   argument are accepted by the values chosen.  The second pass can therefore only fail on
-   concretely typed parameters and on a callback's parameter type (the upper-bound position) *)
-Theorem C06_generic_lower_positions_accepted :
-  forall (V : Type) (O : ops V) limit, acc_laws O ->
-  forall s (b : list (@cparam V * @barg V)) l p,
-  pass1 O limit s b = inr l -> resolve_ok O limit l = true ->
-  (forall k e, In (p, BVals [AList e]) b -> ann p = AnnList k -> acc O (sol_of O limit l k) e = true) /\
-  (forall k j kk vv, In (p, BVals [ADict kk vv]) b -> ann p = AnnDict k j ->
-      acc O (sol_of O limit l k) kk = true /\ acc O (sol_of O limit l j) vv = true) /\
-  (forall k j pv qv, In (p, BVals [AFun pv qv]) b -> ann p = AnnFun k (RVar j) ->
-      acc O (sol_of O limit l j) qv = true).
-Proof. exact @generic_lower_positions_accepted. Qed.
-Print Assumptions C06_generic_lower_positions_accepted.
+(* ... and, by induction on the annotation, to any nesting depth of list[.], dict[., .],
+   tuple[., ...], tuple[., .], Optional[.]: an argument passed for a parameter whose annotation
+   mentions type variables but no callback fits the substituted annotation once the first pass and
+   the solver succeeded.  The second pass can therefore only fail on concretely typed parameters
+   and on a callback's parameter type (the upper-bound position) *)
+Theorem C06_non_callback_argument_fits_after_first_pass :
+  forall (V : Type) (O : ops V) limit none_v, acc_laws O ->
+  forall s (b : list (@cparam V * @barg V)) l p e x,
+  pass1 O limit none_v s b = inr l -> resolve_ok O limit l = true ->
+  In (p, BVals [x]) b -> ann p = AnnE e -> tv_in e = true ->
+  fits_e O none_v (sol_of O limit l) e x = true.
+Proof. exact @non_callback_argument_fits_after_pass1. Qed.
+Print Assumptions C06_non_callback_argument_fits_after_first_pass.
+
+Theorem C06_callback_result_accepted :
+  forall (V : Type) (O : ops V) limit none_v, acc_laws O ->
+  forall s (b : list (@cparam V * @barg V)) l p k j pv qv,
+  pass1 O limit none_v s b = inr l -> resolve_ok O limit l = true ->
+  In (p, BVals [AFun pv qv]) b -> ann p = AnnFun k (RVar j) ->
+  acc O (sol_of O limit l j) qv = true.
+Proof. exact @callback_result_accepted. Qed.
+Print Assumptions C06_callback_result_accepted.
 
 (* result type: for `-> T_k` the inferred type contains every literal passed for a
    parameter annotated T_k (in particular the one an identity-like body returns) *)
 Theorem C06_identity_result_member :
-  forall (V : Type) (O : ops V) limit (Obj : Type) (val : Obj -> V) (member : Obj -> V -> bool),
+  forall (V : Type) (O : ops V) limit none_v (Obj : Type) (val : Obj -> V) (member : Obj -> V -> bool),
   (forall t o, acc O t (val o) = member o t) ->
   forall s c b p k o,
-  cret s = RVar k -> diagnosed O limit s c = false -> cbind s c = Some b ->
-  In (p, BVals [AV (val o)]) b -> ann p = AnnVar k ->
-  member o (snd (check_call O limit s c)) = true.
+  cret s = RVar k -> diagnosed O limit none_v s c = false -> cbind s c = Some b ->
+  In (p, BVals [AV (val o)]) b -> ann p = AnnE (TVarE k) ->
+  member o (snd (check_call O limit none_v s c)) = true.
 Proof. exact @identity_result_member. Qed.
 Print Assumptions C06_identity_result_member.
 
@@ -128,25 +145,25 @@ Proof. exact acc_literal_is_member. Qed.
 Print Assumptions C06_atoms_acceptance_is_runtime_membership.
 
 Theorem C06_atoms_diagnosed_iff_some_argument_not_member : forall s c b,
-  no_tv s = true -> cbind s c = Some b -> literal_args obj_val b ->
-  (diagnosed atom_ops rrs_limit s c = true <->
-   exists p vs t o, In (p, BVals vs) b /\ ann p = AnnTy t /\ In (AV (obj_val o)) vs /\ member o t = false).
-Proof. exact (nongeneric_diagnosed_iff_nonmember atom_ops rrs_limit obj_val member acc_literal_is_member). Qed.
+  flat_sig s = true -> cbind s c = Some b -> literal_args obj_val b ->
+  (diagnosed atom_ops rrs_limit (SU [A_litNone]) s c = true <->
+   exists p vs t o, In (p, BVals vs) b /\ ann p = AnnE (TTy t) /\ In (AV (obj_val o)) vs /\ member o t = false).
+Proof. exact (nongeneric_diagnosed_iff_nonmember atom_ops rrs_limit (SU [A_litNone]) obj_val member acc_literal_is_member). Qed.
 Print Assumptions C06_atoms_diagnosed_iff_some_argument_not_member.
 
 Theorem C06_atoms_typevar_argument_accepted_by_solution :
   forall s (b : list (@cparam (@sval atom) * @barg (@sval atom))) l p k v,
-  pass1 atom_ops rrs_limit s b = inr l -> resolve_ok atom_ops rrs_limit l = true ->
-  In (p, BVals [AV v]) b -> ann p = AnnVar k ->
+  pass1 atom_ops rrs_limit (SU [A_litNone]) s b = inr l -> resolve_ok atom_ops rrs_limit l = true ->
+  In (p, BVals [AV v]) b -> ann p = AnnE (TVarE k) ->
   acc atom_ops (sol_of atom_ops rrs_limit l k) v = true.
-Proof. exact (typevar_argument_accepted_by_solution atom_ops rrs_limit atom_laws). Qed.
+Proof. exact (typevar_argument_accepted_by_solution atom_ops rrs_limit (SU [A_litNone]) atom_laws). Qed.
 Print Assumptions C06_atoms_typevar_argument_accepted_by_solution.
 
 Theorem C06_atoms_identity_result_member : forall s c b p k o,
-  cret s = RVar k -> diagnosed atom_ops rrs_limit s c = false -> cbind s c = Some b ->
-  In (p, BVals [AV (obj_val o)]) b -> ann p = AnnVar k ->
-  member o (snd (check_call atom_ops rrs_limit s c)) = true.
-Proof. exact (identity_result_member atom_ops rrs_limit obj_val member acc_literal_is_member). Qed.
+  cret s = RVar k -> diagnosed atom_ops rrs_limit (SU [A_litNone]) s c = false -> cbind s c = Some b ->
+  In (p, BVals [AV (obj_val o)]) b -> ann p = AnnE (TVarE k) ->
+  member o (snd (check_call atom_ops rrs_limit (SU [A_litNone]) s c)) = true.
+Proof. exact (identity_result_member atom_ops rrs_limit (SU [A_litNone]) obj_val member acc_literal_is_member). Qed.
 Print Assumptions C06_atoms_identity_result_member.
 
 (* C03 composed: over the merged Core value model (every class table `ct`; any operations
@@ -154,35 +171,47 @@ Print Assumptions C06_atoms_identity_result_member.
    Core's structural membership as the specification, on calls whose (declared type,
    literal) pairs are inside C03's guard `ok` *)
 Theorem C06_core_diagnosed_iff_some_argument_not_member_partial :
-  forall (ct : PV.Core.Cls.class_table) (O : ops PV.Core.Val.val) limit,
+  forall (ct : PV.Core.Cls.class_table) (O : ops PV.Core.Val.val) limit none_v,
   (forall T o, acc O T (kv o) = PV.Core.CanAssignK.ca ct T o) ->
-  forall s c b, no_tv s = true -> cbind s c = Some b -> literal_args kv b ->
-  (forall p vs T o, In (p, BVals vs) b -> ann p = AnnTy T -> In (AV (kv o)) vs -> PV.Proofs.C03Main.ok ct T o) ->
-  (diagnosed O limit s c = true <->
-   exists p vs T o, In (p, BVals vs) b /\ ann p = AnnTy T /\ In (AV (kv o)) vs /\ PV.Core.Member.member ct T o = false).
+  forall s c b, flat_sig s = true -> cbind s c = Some b -> literal_args kv b ->
+  (forall p vs T o, In (p, BVals vs) b -> ann p = AnnE (TTy T) -> In (AV (kv o)) vs -> PV.Proofs.C03Main.ok ct T o) ->
+  (diagnosed O limit none_v s c = true <->
+   exists p vs T o, In (p, BVals vs) b /\ ann p = AnnE (TTy T) /\ In (AV (kv o)) vs /\ PV.Core.Member.member ct T o = false).
 Proof. exact core_diagnosed_iff_nonmember_partial. Qed.
 Print Assumptions C06_core_diagnosed_iff_some_argument_not_member_partial.
+
+(* before repo_fixes/C06-empty-collection-lower-bound: an unused `*rest: TA` contributed the lower
+   bound Any, the solver adopted it, and every check against TA passed.  With the bounds of
+   m(g_float_float) for  def m(cb: Callable[[TA], Any], *rest: TA)  (TA bound=A):
+   upper float (callback), upper A (declared), [lower Any,] upper A — *)
+Theorem C06_unused_star_args_refuted_before_fix :
+  resolve atom_ops [UpperBound (SU [A_float]); UpperBound (SU [A_clsA]); LowerBound SAny; UpperBound (SU [A_clsA])] = Sol SAny /\
+  acc atom_ops (SU [A_float]) SAny = true /\
+  resolve atom_ops [UpperBound (SU [A_float]); UpperBound (SU [A_clsA]); UpperBound (SU [A_clsA])] = Sol (SU [A_float; A_clsA]) /\
+  acc atom_ops (SU [A_float]) (SU [A_float; A_clsA]) = false.
+Proof. vm_compute. repeat split. Qed.
+Print Assumptions C06_unused_star_args_refuted_before_fix.
 
 (* non-trivial inputs:  def f(p0: T, /, p1: Callable[[T], U], *va: T, k: int = 0) -> T   (T, U unbounded) *)
 Example C06_examples :
   let P n k d := mkParam n k d in
-  let s := mk_csig [mk_cparam (P 0%N PO false) (AnnVar 0) None;
+  let s := mk_csig [mk_cparam (P 0%N PO false) (AnnE (TVarE 0)) None;
                     mk_cparam (P 1%N POK false) (AnnFun 0 (RVar 1)) None;
-                    mk_cparam (P 2%N VP false) (AnnVar 0) None;
-                    mk_cparam (P 3%N KO true) (AnnTy (SU [A_int])) (Some (AV (obj_val O_lit0)))]
+                    mk_cparam (P 2%N VP false) (AnnE (TVarE 0)) None;
+                    mk_cparam (P 3%N KO true) (AnnE (TTy (SU [A_int]))) (Some (AV (obj_val O_lit0)))]
                    [Unbounded; Unbounded] (RVar 0) in
   let g := AFun (SU [A_int]) (SU [A_str]) in
   (* f(True, g_int_str, 1)  -> accepted, T := Literal[True, 1] *)
-  check_call atom_ops rrs_limit s (mk_ccall [AV (obj_val O_litTrue); g; AV (obj_val O_lit1)] None [] None)
+  check_call atom_ops rrs_limit (SU [A_litNone]) s (mk_ccall [AV (obj_val O_litTrue); g; AV (obj_val O_lit1)] None [] None)
     = ([], SU [A_litTrue; A_lit1]) /\
   (* f("a", g_int_str): the callback's parameter type int is an upper bound of T: solver error *)
-  fst (check_call atom_ops rrs_limit s (mk_ccall [AV (obj_val O_lita); g] None [] None)) = [CannotResolve] /\
+  fst (check_call atom_ops rrs_limit (SU [A_litNone]) s (mk_ccall [AV (obj_val O_lita); g] None [] None)) = [CannotResolve] /\
   (* f(1, p1=g, k="a"): k rejected *)
-  fst (check_call atom_ops rrs_limit s (mk_ccall [AV (obj_val O_lit1)] None [(1%N, g); (3%N, AV (obj_val O_lita))] None))
+  fst (check_call atom_ops rrs_limit (SU [A_litNone]) s (mk_ccall [AV (obj_val O_lit1)] None [(1%N, g); (3%N, AV (obj_val O_lita))] None))
     = [IncompatibleArgument 3%N] /\
   (* f(p0=1, p1=g): positional-only parameter passed by keyword *)
-  fst (check_call atom_ops rrs_limit s (mk_ccall [] None [(0%N, AV (obj_val O_lit1)); (1%N, g)] None)) = [IncompatibleCall] /\
+  fst (check_call atom_ops rrs_limit (SU [A_litNone]) s (mk_ccall [] None [(0%N, AV (obj_val O_lit1)); (1%N, g)] None)) = [IncompatibleCall] /\
   (* f( *xs) with xs: list[int]: p0 and *va take int, p1 takes int too and is rejected *)
-  fst (check_call atom_ops rrs_limit s (mk_ccall [] (Some (AV (SU [A_int]))) [] None)) = [IncompatibleArgument 1%N].
+  fst (check_call atom_ops rrs_limit (SU [A_litNone]) s (mk_ccall [] (Some (AV (SU [A_int]))) [] None)) = [IncompatibleArgument 1%N].
 Proof. vm_compute. repeat split. Qed.
 Print Assumptions C06_examples.
